@@ -133,14 +133,18 @@ func (s *IndexStorage) Index() (i *index.Index, err error) {
 	return copyIndex(idx), nil
 }
 
-// copyIndex returns a shallow copy of the Index struct with its own
-// copy of the Entries slice, so that callers can append/remove entries
-// without affecting the cached copy. Individual *Entry pointers are
-// shared; this is safe because callers replace entries rather than
-// mutating them in place.
+// copyIndex returns a copy of the Index struct with its own Entries slice
+// and its own copy of every Entry, so that callers can append, remove and
+// modify entries without affecting the cached copy. Entries must be copied,
+// not shared: callers do mutate them in place (Worktree.doUpdateFileToIndex,
+// Index.SkipUnless), and an operation that fails after such a mutation never
+// reaches SetIndex, which would leave the cache ahead of the file on disk.
 func copyIndex(idx *index.Index) *index.Index {
 	cp := *idx
 	cp.Entries = make([]*index.Entry, len(idx.Entries))
-	copy(cp.Entries, idx.Entries)
+	for i, e := range idx.Entries {
+		c := *e
+		cp.Entries[i] = &c
+	}
 	return &cp
 }
